@@ -69,6 +69,11 @@ def run_group(g):
         except subprocess.TimeoutExpired:
             out = 'TIMEOUT'
         cex = [m.group(0) for m in re.finditer(r'CEX [^\n]*', out)]
+        if not cex and re.search(r'\(signal: \d+|has overflowed its stack|SIGSEGV|SIGABRT|memory allocation of \d+ bytes failed', out):
+            # the library took the whole test process down (stack overflow, abort) while handling an input the oracle had announced
+            tr = re.findall(r'TRYING ([^\n]*)', out)
+            if tr:
+                cex = ['CEX (the test process died: stack overflow / abort inside the library) while handling: ' + tr[-1]]
         res = dict(found=bool(cex),
                    text=('failing input(s) found by running %s on the real crate (scratch copy + appended test module %s):\n%s\n\ncommand: %s\n'
                          % ('`cargo test verif_cex_`', os.path.relpath(g['file'], VERIF), '\n'.join(cex), ' '.join(cmd)))
